@@ -136,6 +136,7 @@ type Worker struct {
 	idleCalls   int
 	deadlockID  string
 	onceDone    map[string]bool
+	syncMaps    map[string]*MapVal
 	inOnce      int
 	reportedOnce map[string]bool
 	notes       map[string]bool
@@ -197,6 +198,7 @@ func (w *Worker) resetPath(prefix []Decision) {
 	w.deadlockID = ""
 	w.initThreads()
 	w.onceDone = nil
+	w.syncMaps = nil
 	w.inOnce = 0
 	w.reportedOnce = map[string]bool{}
 	w.notes = map[string]bool{}
